@@ -9,7 +9,9 @@
 From Coq Require Import String List ZArith Bool.
 Require Import Blots.Num Blots.gen.Builtins Blots.Ast Blots.Value Blots.Outcome Blots.Binop
                Blots.Env Blots.Eval Blots.Program Blots.EvalInst
-               Blots.proofs.Frames Blots.proofs.StoreMono Blots.proofs.InstMono Blots.proofs.Scoping.
+               Blots.EvalFull
+               Blots.proofs.Frames Blots.proofs.StoreMono Blots.proofs.InstMono Blots.proofs.Scoping
+               Blots.proofs.FullInst.
 Import ListNotations.
 Open Scope string_scope.
 
@@ -110,6 +112,17 @@ Qed.
 Check C03_function_names_write_once : forall release d prog s,
   store_le (fst (s_cfg s)) (fst (s_cfg (fst (run (evalD release binop_impl builtin_impl d) s prog)))).
 Print Assumptions C03_function_names_write_once.
+
+(* ... and for the evaluator with every transcribed built-in (EvalFull.v) *)
+Theorem C03_function_names_write_once_full : forall release d prog s,
+  store_le (fst (s_cfg s)) (fst (s_cfg (fst (run (evalD release binop_impl builtin_full d) s prog)))).
+Proof.
+  intros release d. apply run_store.
+  exact (evalD_store_le release binop_impl builtin_full binop_impl_mono builtin_full_mono d).
+Qed.
+Check C03_function_names_write_once_full : forall release d prog s,
+  store_le (fst (s_cfg s)) (fst (s_cfg (fst (run (evalD release binop_impl builtin_full d) s prog)))).
+Print Assumptions C03_function_names_write_once_full.
 
 (* ---- non-vacuity: a session with a failing statement in the middle ---- *)
 Definition n (z : Z) : expr := ENum (num_of_Z z).
